@@ -12,12 +12,16 @@ def sc(b,mdo): return [{"set":"b%d"%b,"file":"pwr/constants.go","ident":"BlockSi
   {"set":"b%d"%b,"file":"bsdiff/patch.go","func":"NewIndividualPatchContext","ident":"lruChunkSize","value":"2"},
   {"set":"b%d"%b,"file":"bsdiff/patch.go","func":"NewIndividualPatchContext","ident":"lruNumEntries","value":"2"}]
 scale=sc(2,5)
+# set "w": the same with a bsdiff scan block of 64 bytes, so that matches longer than bsdiff's 8-byte threshold exist
+scale+=[dict(r,set="w",value=("64" if r.get("match")=="128 * 1024" else "4" if r.get("ident")=="lruChunkSize" else r["value"])) for r in sc(2,5)]
 Q=["quick","thorough"];T=["thorough"]
 H=[{"name":"H_witness","tiers":Q,"expect":"violation","bounds":"vacuity witness"}]
 def grid(sizes,shapes,parts,forces,limits,alpha):
     return [{"a":a,"b":b,"shape":s,"parts":p,"conc":0,"force":f,"limit":l,"alpha":alpha} for (a,b) in sizes for s in shapes for p in parts for f in forces for l in limits]
 H.append({"name":"H_rediff","tiers":Q,"scale":"b2","bounds":"B=2, alphabet {0,1}: old files A (4), B (2 or 0); 5 shapes (edit, rename+insert, tiny new file + emptied file, concatenation mapped to another file + brand-new file, shrink/grow); partitions 0,1,3; ForceMapAll on/off; size limit 0 (default) or B",
   "param_sets":grid([(4,2),(3,0)],range(0,5),[0,1,3],[0,1],[0,2],2)})
+H.append({"name":"H_moved","tiers":Q,"scale":"w","bounds":"two files optimized in one run, larger old file first (30 and 12 bytes, concrete distinct contents, one symbolic edit byte): 10 bytes of old A (from an offset beyond old B's size) moved into new B, before or after B's own content (new B still maps to old B); partitions 0 and 2; scan block 64, LRU chunk 4",
+  "param_sets":[{"la":30,"lb":12,"off":o,"ln":10,"pos":q,"parts":p} for o in (13,16,19) for q in (0,1) for p in (0,2)]})
 H.append({"name":"H_rediff","tiers":T,"scale":"b2","bounds":"B=2, alphabet {0,1,2}: A 0..5, B in {0,3}; all shapes; partitions 0..16 (0,1,2,3,5,8,16)","max_seconds":1500,
   "param_sets":grid([(a,b) for a in range(0,6) for b in (0,3)],range(0,5),[0,1,2,3,5,8,16],[0,1],[0,2],3)})
 json.dump({"property":"C07","package":"c07","scale":scale,"harnesses":H,
